@@ -36,7 +36,7 @@ Inductive wop :=
 | WAnd (i j : nat)                                (* sets[i] & sets[j] *)
 | WSetOv (i : nat) (p : option bool)              (* sets[i].prereleases = p *)
 | WCellOv (a : nat) (p : option bool)             (* cells[a].prereleases = p - a member object, through whatever alias *)
-| WRead (i : nat) (o : op)                        (* contains / in / filter / .prereleases on sets[i] *)
+| WRead (i : nat) (o : op)                        (* contains / in / filter / .prereleases on sets[i]; with OpSet p it is WSetOv i p *)
 | WReadCell (a : nat) (o : op).                   (* the same on the Specifier object cells[a] *)
 Inductive wobs := WNone | WObs (r : obs) | WValueError.
 
@@ -52,8 +52,27 @@ Definition wstep (w : world) (o : wop) : world * wobs :=
       end
   | WSetOv i p => ({| cells := cells w; sets := set_nth i (fun h => {| h_ms := h_ms h; h_ov := p |}) (sets w) |}, WNone)
   | WCellOv a p => ({| cells := set_nth a (fun c => {| c_sp := c_sp c; c_ov := p |}) (cells w); sets := sets w |}, WNone)
-  | WRead i o' => (w, WObs (snd (step (OSet (resolve w i)) o')))
-  | WReadCell a o' => (w, WObs (snd (step (OSpec (c_sp (cell_at w a)) (c_ov (cell_at w a))) o')))
+  | WRead i o' =>
+      match o' with
+      | OpSet p => ({| cells := cells w; sets := set_nth i (fun h => {| h_ms := h_ms h; h_ov := p |}) (sets w) |}, WNone)   (* = WSetOv i p *)
+      | _ => (w, WObs (snd (step (OSet (resolve w i)) o')))
+      end
+  | WReadCell a o' =>
+      match o' with
+      | OpSet p => ({| cells := set_nth a (fun c => {| c_sp := c_sp c; c_ov := p |}) (cells w); sets := sets w |}, WNone)   (* = WCellOv a p *)
+      | _ => (w, WObs (snd (step (OSpec (c_sp (cell_at w a)) (c_ov (cell_at w a))) o')))
+      end
   end.
+(* the ops of SetsModel.op that only read: everything but the assignment *)
+Definition is_read (o : op) : bool := match o with OpSet _ => false | _ => true end.
+(* every address / index an op mentions exists (what the harness generates; Python raises IndexError otherwise) *)
+Definition wf_op (w : world) (o : wop) : Prop :=
+  match o with
+  | WSet addrs _ => Forall (fun a => (a < length (cells w))%nat) addrs
+  | WAnd i j => (i < length (sets w))%nat /\ (j < length (sets w))%nat
+  | _ => True
+  end.
+Fixpoint wf_ops (w : world) (ops : list wop) : Prop :=
+  match ops with [] => True | o :: r => wf_op w o /\ wf_ops (fst (wstep w o)) r end.
 Definition wrun (w : world) (ops : list wop) : world := fold_left (fun w o => fst (wstep w o)) ops w.
 Definition empty_world : world := {| cells := []; sets := [] |}.
